@@ -98,6 +98,9 @@ def run_traced(nodes: List[Dict[str, Any]], data: Any, ctx: Dict[str, Any], *, d
 
     tmp = Path(tempfile.mkdtemp(prefix="vtrace-", dir=os.environ.get("VERIF_TMP", None)))
     target = tmp / "trace.ser.jsonl" if mode == "file" else tmp / "traces"
+    if mode == "dir.dotted":            # an EXISTING directory whose name has a suffix is still a directory
+        target = tmp / "traces.v2"
+        target.mkdir()
     drv = make_driver(str(target), detail)
     t0 = time.time()
     obs = run_nodes(nodes, data, ctx, trace=drv, orchestrator=orchestrator, scramble=scramble)
